@@ -63,13 +63,14 @@ func TestC15(t *testing.T) {
 				t.Skip("document too long for exhaustive enumeration")
 			}
 			withData := rapid.Bool().Draw(t, "errwithdata")
+			rerr := rapid.SampledFrom(faults.ReadErrors).Draw(t, "readerr")
 			desc := func() string {
-				return "ReadCSV under reader faults\n" + c.String() + fmt.Sprintf("\nerror together with last bytes: %v", withData)
+				return "ReadCSV under reader faults\n" + c.String() + fmt.Sprintf("\nerror together with last bytes: %v, error %#v", withData, rerr)
 			}
 			mk := func(failAt int) *hx.ChunkReader {
 				rd := hx.NewChunkReader(data, c.schedule, c.eofWith)
 				rd.NoCycle = c.noCycle
-				rd.FailAt, rd.FailErr, rd.FailWithData = failAt, faults.ErrInjected, withData
+				rd.FailAt, rd.FailErr, rd.FailWithData = failAt, rerr, withData
 				return rd
 			}
 			full := qframe.ReadCSV(mk(-1), c.confFns()...)
@@ -112,12 +113,13 @@ func TestC15(t *testing.T) {
 			data := buf.Bytes()
 			schedule := []int{rapid.SampledFrom([]int{1, 3, 7, 64, 1 << 20}).Draw(t, "chunk")}
 			withData := rapid.Bool().Draw(t, "errwithdata")
+			rerr := rapid.SampledFrom(faults.ReadErrors).Draw(t, "readerr")
 			desc := func() string {
-				return fmt.Sprintf("ReadJSON under reader faults\njson %q\nchunk %v error with data %v", clipS(string(data)), schedule, withData)
+				return fmt.Sprintf("ReadJSON under reader faults\njson %q\nchunk %v error with data %v, error %#v", clipS(string(data)), schedule, withData, rerr)
 			}
 			mk := func(failAt int) *hx.ChunkReader {
 				rd := hx.NewChunkReader(data, schedule, false)
-				rd.FailAt, rd.FailErr, rd.FailWithData = failAt, faults.ErrInjected, withData
+				rd.FailAt, rd.FailErr, rd.FailWithData = failAt, rerr, withData
 				return rd
 			}
 			full := qframe.ReadJSON(mk(-1))
